@@ -243,6 +243,9 @@ class AbstractHasAxes(AbstractHasMetadata):
             if len(newdims) != len(self.dims):
                 raise ValueError("dimensions number mismatch")
             newdims = dict(zip(self.dims, newdims))
+        newnames = [newdims.get(d, d) for d in self.dims]
+        if len(set(newnames)) != len(newnames):
+            raise ValueError("duplicate dimension names: {}".format(newnames))
         # look all axes up before renaming any of them (swaps such as ('y', 'x'))
         renamed = [(self.axes[old], newdims[old]) for old in newdims.keys()]
         for ax, new in renamed:
